@@ -562,6 +562,9 @@ where
                     rng_seed: RngSeed::Fixed(wseed),
                     failure_persistence: None,
                     max_shrink_iters: 4000,
+                    // shrinking is a convenience; a big failing case must not hold the verdict
+                    // up for minutes (the unshrunk case is a valid replay too)
+                    max_shrink_time: 45_000,
                     max_global_rejects: 1 << 20,
                     ..Config::default()
                 };
